@@ -10,7 +10,7 @@ from . import _auth
 
 ID = "C10"
 P = "Webauthn.Props.C10."
-THEOREMS = [P + n for n in ("bits", "graph", "reserved_ignored", "backup", "auth_gate", "layout")] + \
+THEOREMS = [P + n for n in ("bits", "graph", "reserved_ignored", "backup", "auth_gate", "layout", "reg_gate")] + \
            ["Webauthn.Props.C02.sound", "Webauthn.Props.C05.reg_fidelity"]   # the registration gate and report
 LEAN_TARGETS = ["Props.C10", "Props.C02", "Props.C05"]
 AUDIT_IMPORTS = ["Props.C02", "Props.C05"]
